@@ -1,6 +1,6 @@
 (* C16: specification of the four lint rules as predicates on ONE declaration and its own method
    subtree, and the proofs that the checker models (Model/Lints.v) flag exactly the declarations
-   satisfying their rule, each once -- for ALL trees satisfying the guard WF16, which is stated
+   satisfying their rule, each once -- for ALL trees satisfying the guard WF16k, which is stated
    explicitly and is refuted class by class in Properties/C16.v. *)
 From GoldV Require Import Base Tokens Lexer AstKinds Tree Lints.
 From Coq Require Import Permutation.
@@ -464,13 +464,9 @@ Qed.
 (* 6. inherited rule                                                                          *)
 (* ========================================================================================== *)
 
-(* the `pass` statement: an identifier (or keyword) token spelled pass, any letter case *)
-Definition is_pass_stmt (x : node) : bool :=
-  is_pass_terminal x &&
-  match attr_tok K_token x with
-  | Some t => tt_eqb (tty t) TIdentifier || tt_eqb (tty t) TPass
-  | None => false
-  end.
+(* the `pass` statement: a token that is not a string literal and is spelled pass, any letter case
+   (`pass` is lexed as an identifier; since 44578d5 the checker's test is this very predicate) *)
+Definition is_pass_stmt (x : node) : bool := is_pass_terminal x.
 
 Definition s_SELF : str := [83;69;76;70].
 
@@ -635,8 +631,6 @@ Proof.
 Qed.
 
 (* per-method guards of the inherited rule *)
-Definition pass_ok (m : node) : bool :=
-  forallb (fun x => implb (is_pass_terminal x) (is_pass_stmt x)) (body m).
 Definition inh_ok (m : node) : bool :=
   forallb (fun x => implb (is_inherited_op x && inh_names m x) (inh_self_call m x)) (body m).
 
@@ -660,19 +654,17 @@ Proof.
 Qed.
 
 Lemma inh_verdict_spec m :
-  is_method m = true -> pass_ok m = true -> inh_ok m = true -> inh_verdict m = spec_inh m.
+  is_method m = true -> inh_ok m = true -> inh_verdict m = spec_inh m.
 Proof.
-  intros Hm Hp Hi. unfold inh_verdict, spec_inh, R_inhb, inh_diag. rewrite Hm, inh_sel_range_method by exact Hm.
+  intros Hm Hi. unfold inh_verdict, spec_inh, R_inhb, inh_diag. rewrite Hm, inh_sel_range_method by exact Hm.
   cbn [andb]. rewrite <- andb_assoc, <- negb_orb.
   replace (existsb (inh_trig (Some m)) (body m)) with (existsb is_pass_stmt (body m) || existsb (inh_self_call m) (body m));
     [reflexivity|].
   rewrite <- existsb_orb. apply existsb_ext_in. intros x Hx.
-  unfold pass_ok, inh_ok in *. rewrite forallb_forall in Hp, Hi. specialize (Hp x Hx). specialize (Hi x Hx).
-  unfold inh_trig. unfold is_pass_stmt, inh_self_call in *. cbn [inh_names] in *.
-  set (A := is_pass_terminal x) in *.
-  set (A' := match attr_tok K_token x with Some t => _ | None => false end) in *.
+  unfold inh_ok in *. rewrite forallb_forall in Hi. specialize (Hi x Hx).
+  unfold inh_trig, is_pass_stmt. unfold inh_self_call in *. cbn [inh_names] in *.
   set (B' := match child 0 x with Some e => _ && _ | None => false end) in *.
-  destruct A, A', (is_inherited_op x), (inh_names m x), B'; cbn in *; congruence.
+  destruct (is_pass_terminal x), (is_inherited_op x), (inh_names m x), B'; cbn in *; congruence.
 Qed.
 
 (* ========================================================================================== *)
@@ -720,14 +712,14 @@ Qed.
 Section Purge.
   Context (keyf : str -> str) (keyf_ci : forall a b, keyf a = keyf b -> upper a = upper b).
 
-  Definition purge_diag (v : node) : diag := mkDiag PURGE WARNING (ident_range v) (keyf (nident v)).
+  Definition purge_diag (v : node) : diag := mkDiag PURGE WARNING (ident_range v) (nident v).   (* the declared spelling *)
 
   Definition spec_purge (m : node) : list diag :=
     flat_map (fun v => if purged_in (body m) v then [] else [purge_diag v]) (locals (body m)).
 
   (* the visitor restricted to its map *)
   Definition mstep (M : pmap) (n : node) : pmap :=
-    let M1 := if is_tvba_local n then ainsert (keyf (nident n)) (ident_range n, false) M else M in
+    let M1 := if is_tvba_local n then ainsert (keyf (nident n)) ((nident n, ident_range n), false) M else M in
     if is_purge_call n then match child 0 n with Some a => amark (keyf (nident a)) M1 | None => M1 end else M1.
 
   Definition ustep (st : unp_state) (n : node) : unp_state := unp_visit keyf ctx0 [] n st.
@@ -800,7 +792,7 @@ Section Purge.
 
   (* ---- the map built inside one method ---- *)
   Definition spec_map (p : list node) : pmap :=
-    map (fun v => (keyf (nident v), (ident_range v, purged_in p v))) (locals p).
+    map (fun v => (keyf (nident v), ((nident v, ident_range v), purged_in p v))) (locals p).
 
   Record purge_guard (l : list node) : Prop := {
     pg_nodup : NoDup (map (fun v => upper (nident v)) (locals l));
@@ -845,7 +837,7 @@ Section Purge.
       { intro v. unfold purged_in. rewrite purge_args_snoc, (tvba_not_call x Et), app_nil_r. reflexivity. }
       rewrite ainsert_fresh.
       + f_equal; [apply map_ext; intro v; rewrite Ep; reflexivity|].
-        rewrite Ep. do 3 f_equal. symmetry. unfold purged_in. apply existsb_false. intros a Ha.
+        rewrite Ep. replace (purged_in p x) with false; [reflexivity|]. symmetry. unfold purged_in. apply existsb_false. intros a Ha.
         apply in_purge_args in Ha as (c & Hc & Hp & Hch). apply in_split in Hc as (p1 & p2 & ->).
         unfold arg_refers. rewrite (Haft p1 c (p2 ++ x :: q) a x); [apply andb_false_r| |assumption|assumption| |assumption].
         * rewrite <- app_assoc. reflexivity.
@@ -888,7 +880,7 @@ Section Purge.
 
   Lemma unp_verdict_spec m : purge_guard (body m) -> unp_verdict m = spec_purge m.
   Proof.
-    intro H. unfold unp_verdict, method_map. change (@nil (str * (range * bool))) with (spec_map []).
+    intro H. unfold unp_verdict, method_map. change (@nil (str * pinfo)) with (spec_map []).
     rewrite (mfold_spec (body m) [] H). cbn [app]. unfold spec_map, unpurged_diags, spec_purge.
     rewrite flat_map_map. reflexivity.
   Qed.
@@ -954,11 +946,11 @@ Section Purge.
   Qed.
 
   (* ======================================================================================== *)
-  (* 8. the guard WF16 and the exactness theorem                                              *)
+  (* 8. the guard WF16k and the exactness theorem                                              *)
   (* ======================================================================================== *)
 
   Definition method_ok (m : node) : bool :=
-    no_nested m && pass_ok m && inh_ok m &&
+    no_nested m && inh_ok m &&
     nodup_locals (body m) && padb (body m) && key_consistent (body m) && args_plain (body m).
 
   Definition item_ok (it : item) : bool :=
@@ -967,7 +959,7 @@ Section Purge.
   Definition wf16b (file : node) : bool :=
     negb (is_kind KAstFunction file) && forallb item_ok (items file).
 
-  Definition WF16 (file : node) : Prop := wf16b file = true.
+  Definition WF16k (file : node) : Prop := wf16b file = true.
 
   (* one diagnostic per declaration satisfying its rule *)
   Definition lints_spec (file : node) : list diag :=
@@ -980,9 +972,9 @@ Section Purge.
     unfold method_ok in H. rewrite !andb_true_iff in H. tauto.
   Qed.
 
-  Theorem lints_exact_eq file : WF16 file -> lints_k keyf file = lints_spec file.
+  Theorem lints_exact_eq file : WF16k file -> lints_k keyf file = lints_spec file.
   Proof.
-    unfold WF16, wf16b. intro H. apply andb_true_iff in H as [Hr Hi]. apply negb_true_iff in Hr.
+    unfold WF16k, wf16b. intro H. apply andb_true_iff in H as [Hr Hi]. apply negb_true_iff in Hr.
     pose proof (item_ok_inh _ Hi) as Hinh.
     assert (Hm : methods file = meths (items file)).
     { apply methods_meths. rewrite Forall_forall in *. intros it Hit. specialize (Hinh it Hit).
@@ -997,12 +989,12 @@ Section Purge.
       rewrite Forall_forall in Hs. rewrite forallb_forall in Hi. split; [apply (Hs _ Hit) | apply (Hi _ Hit)]. }
     f_equal. f_equal; [|f_equal]; apply flat_map_ext_in; intros m Hin; destruct (Hall m Hin) as [Hmm Hok];
       unfold method_ok in Hok; rewrite !andb_true_iff in Hok;
-      destruct Hok as [[[[[[K1 K2] K3] K4] K5] K6] K7].
+      destruct Hok as [[[[[K1 K3] K4] K5] K6] K7].
     - apply unp_verdict_spec. apply purge_guard_b; assumption.
     - apply inh_verdict_spec; assumption.
   Qed.
 
-  Theorem lints_exact file : WF16 file -> Permutation (lints_k keyf file) (lints_spec file).
+  Theorem lints_exact file : WF16k file -> Permutation (lints_k keyf file) (lints_spec file).
   Proof. intro H. rewrite (lints_exact_eq file H). apply Permutation_refl. Qed.
 End Purge.
 
@@ -1024,11 +1016,10 @@ Definition on_meths (p : node -> bool) (file : node) : bool :=
 Definition on_gaps (p : node -> bool) (file : node) : bool :=
   forallb (fun it => match it with Gap x => p x | Meth _ => true end) (items file).
 
-(* the clauses of WF16, named as in the report *)
+(* the clauses of WF16k, named as in the report *)
 Definition RootNotFunction (file : node) : bool := negb (is_kind KAstFunction file).
 Definition QuietOutsideMethods : node -> bool := on_gaps gap_quiet.
 Definition NoNestedMethods : node -> bool := on_meths no_nested.
-Definition NoPassLiteral : node -> bool := on_meths pass_ok.
 Definition InheritedSelfOnly : node -> bool := on_meths inh_ok.
 Definition NoDupLocals : node -> bool := on_meths (fun m => nodup_locals (body m)).
 Definition PurgeAfterDecl : node -> bool := on_meths (fun m => padb (body m)).
@@ -1037,13 +1028,13 @@ Definition CaseConsistentPurge : node -> bool := PurgeKeyConsistent key_exact.
 Definition PurgeArgsPlain : node -> bool := on_meths (fun m => args_plain (body m)).
 
 Definition guard_profile (keyf : str -> str) (file : node) : list bool :=
-  [RootNotFunction file; QuietOutsideMethods file; NoNestedMethods file; NoPassLiteral file;
+  [RootNotFunction file; QuietOutsideMethods file; NoNestedMethods file;
    InheritedSelfOnly file; NoDupLocals file; PurgeAfterDecl file; PurgeKeyConsistent keyf file;
    PurgeArgsPlain file].
 
 Lemma wf16b_profile keyf file : wf16b keyf file = forallb (fun b => b) (guard_profile keyf file).
 Proof.
-  unfold wf16b, guard_profile, RootNotFunction, QuietOutsideMethods, NoNestedMethods, NoPassLiteral,
+  unfold wf16b, guard_profile, RootNotFunction, QuietOutsideMethods, NoNestedMethods,
     InheritedSelfOnly, NoDupLocals, PurgeAfterDecl, PurgeKeyConsistent, PurgeArgsPlain, on_meths, on_gaps.
   cbn [forallb]. rewrite andb_true_r. f_equal.
   rewrite <- !forallb_andb. apply forallb_ext'. intros [x|m]; cbn [item_ok].
@@ -1064,26 +1055,26 @@ Proof.
   unfold ci_eqb. destruct (str_eqb (upper (nident a)) (upper (nident v))); reflexivity.
 Qed.
 
-Definition WF16_ci (file : node) : Prop :=
-  forallb (fun b => b) [RootNotFunction file; QuietOutsideMethods file; NoNestedMethods file; NoPassLiteral file;
+Definition WF16 (file : node) : Prop :=
+  forallb (fun b => b) [RootNotFunction file; QuietOutsideMethods file; NoNestedMethods file;
                         InheritedSelfOnly file; NoDupLocals file; PurgeAfterDecl file; PurgeArgsPlain file] = true.
 
-Lemma WF16_ci_upper file : WF16_ci file -> WF16 upper file.
+Lemma WF16_upper file : WF16 file -> WF16k upper file.
 Proof.
-  unfold WF16_ci, WF16. rewrite wf16b_profile. unfold guard_profile. cbn [forallb].
+  unfold WF16, WF16k. rewrite wf16b_profile. unfold guard_profile. cbn [forallb].
   replace (PurgeKeyConsistent upper file) with true; [tauto|].
   symmetry. unfold PurgeKeyConsistent, on_meths. apply forallb_forall. intros [x|m] _; [reflexivity|].
   apply key_consistent_upper.
 Qed.
 
 Theorem lints_exact_upper file :
-  WF16_ci file -> Permutation (lints_k upper file) (lints_spec upper file).
-Proof. intro H. apply (lints_exact upper upper_ci). apply WF16_ci_upper. exact H. Qed.
+  WF16 file -> Permutation (lints_k upper file) (lints_spec file).
+Proof. intro H. apply (lints_exact upper upper_ci). apply WF16_upper. exact H. Qed.
 
 Lemma WF16_exact_split file :
-  WF16 key_exact file <-> WF16_ci file /\ CaseConsistentPurge file = true.
+  WF16k key_exact file <-> WF16 file /\ CaseConsistentPurge file = true.
 Proof.
-  unfold WF16, WF16_ci, CaseConsistentPurge. rewrite wf16b_profile. unfold guard_profile. cbn [forallb].
+  unfold WF16k, WF16, CaseConsistentPurge. rewrite wf16b_profile. unfold guard_profile. cbn [forallb].
   rewrite !andb_true_iff. tauto.
 Qed.
 
@@ -1135,7 +1126,7 @@ Section Local.
 
   (* everything the rules say about one top-level declaration: a function of its subtree alone *)
   Definition decl_verdicts (c : node) : list diag :=
-    flat_map ret_verdict (nodes c) ++ flat_map (spec_purge keyf) (methods c) ++
+    flat_map ret_verdict (nodes c) ++ flat_map spec_purge (methods c) ++
     names_in [root_stub] c ++ flat_map spec_inh (methods c).
 
   Lemma root_facts i r rg a ch :
@@ -1145,7 +1136,7 @@ Section Local.
   Proof. repeat split; reflexivity. Qed.
 
   Lemma lints_spec_root i r rg a ch :
-    Permutation (lints_spec keyf (Node KAstRoot i r rg a ch)) (flat_map decl_verdicts ch).
+    Permutation (lints_spec (Node KAstRoot i r rg a ch)) (flat_map decl_verdicts ch).
   Proof.
     set (root := Node KAstRoot i r rg a ch).
     destruct (root_facts i r rg a ch) as (F1 & F2 & F3 & F4 & _ & _). fold root in F1, F2, F3, F4.
@@ -1179,13 +1170,13 @@ Section Local.
   (* removing (or adding) a top-level declaration m changes the report by decl_verdicts m exactly;
      the verdicts on everything else are unaffected *)
   Theorem lints_local i r rg a p m q :
-    WF16 keyf (Node KAstRoot i r rg a (p ++ m :: q)) ->
+    WF16k keyf (Node KAstRoot i r rg a (p ++ m :: q)) ->
     Permutation (lints_k keyf (Node KAstRoot i r rg a (p ++ m :: q)))
                 (lints_k keyf (Node KAstRoot i r rg a (p ++ q)) ++ decl_verdicts m).
   Proof.
     intro H.
-    assert (H' : WF16 keyf (Node KAstRoot i r rg a (p ++ q))).
-    { unfold WF16 in *. rewrite wf16_root in *. rewrite forallb_app in *. cbn [forallb] in H.
+    assert (H' : WF16k keyf (Node KAstRoot i r rg a (p ++ q))).
+    { unfold WF16k in *. rewrite wf16_root in *. rewrite forallb_app in *. cbn [forallb] in H.
       rewrite !andb_true_iff in *. tauto. }
     eapply Permutation_trans; [apply (lints_exact keyf keyf_ci _ H)|].
     eapply Permutation_trans; [apply lints_spec_root|].
@@ -1198,8 +1189,8 @@ Section Local.
 
   (* two files that contain the same top-level declaration m agree on its verdicts *)
   Corollary lints_agree i1 r1 rg1 a1 p1 q1 i2 r2 rg2 a2 p2 q2 m :
-    WF16 keyf (Node KAstRoot i1 r1 rg1 a1 (p1 ++ m :: q1)) ->
-    WF16 keyf (Node KAstRoot i2 r2 rg2 a2 (p2 ++ m :: q2)) ->
+    WF16k keyf (Node KAstRoot i1 r1 rg1 a1 (p1 ++ m :: q1)) ->
+    WF16k keyf (Node KAstRoot i2 r2 rg2 a2 (p2 ++ m :: q2)) ->
     exists rest1 rest2,
       Permutation (lints_k keyf (Node KAstRoot i1 r1 rg1 a1 (p1 ++ m :: q1))) (rest1 ++ decl_verdicts m) /\
       Permutation (lints_k keyf (Node KAstRoot i2 r2 rg2 a2 (p2 ++ m :: q2))) (rest2 ++ decl_verdicts m) /\
@@ -1212,13 +1203,13 @@ Section Local.
 
   (* permuting the top-level declarations permutes the report *)
   Theorem lints_permute i r rg a ch ch' :
-    Permutation ch ch' -> WF16 keyf (Node KAstRoot i r rg a ch) ->
-    WF16 keyf (Node KAstRoot i r rg a ch') /\
+    Permutation ch ch' -> WF16k keyf (Node KAstRoot i r rg a ch) ->
+    WF16k keyf (Node KAstRoot i r rg a ch') /\
     Permutation (lints_k keyf (Node KAstRoot i r rg a ch)) (lints_k keyf (Node KAstRoot i r rg a ch')).
   Proof.
     intros Hp H.
-    assert (H' : WF16 keyf (Node KAstRoot i r rg a ch')).
-    { unfold WF16 in *. rewrite wf16_root in *. rewrite <- (forallb_perm _ _ _ Hp). exact H. }
+    assert (H' : WF16k keyf (Node KAstRoot i r rg a ch')).
+    { unfold WF16k in *. rewrite wf16_root in *. rewrite <- (forallb_perm _ _ _ Hp). exact H. }
     split; [exact H'|].
     eapply Permutation_trans; [apply (lints_exact keyf keyf_ci _ H)|].
     eapply Permutation_trans; [apply lints_spec_root|].
@@ -1271,7 +1262,7 @@ Qed.
 Lemma spec_inh_once m : (length (spec_inh m) <= 1)%nat.
 Proof. unfold spec_inh. destruct (R_inhb m); cbn; lia. Qed.
 
-Lemma spec_purge_in keyf m d : In d (spec_purge keyf m) <-> exists v, R_purge m v /\ d = purge_diag keyf v.
+Lemma spec_purge_in m d : In d (spec_purge m) <-> exists v, R_purge m v /\ d = purge_diag v.
 Proof.
   unfold spec_purge. rewrite in_flat_map. split.
   - intros (v & Hv & Hd). destruct (purged_in (body m) v) eqn:E; [destruct Hd|]. destruct Hd as [<-|[]].
